@@ -495,7 +495,7 @@ def resolve_typenames(
     auto_import: bool = True,
     auto_dict: bool = False
 ) -> JSONValueType:
-  """Inplace resolves the "_type" keys with their factories in a JSON tree."""
+  """Returns a copy of a JSON tree with "_type" keys resolved to factories."""
 
   def _resolve_typename(v: Dict[str, Any]) -> bool:
     """Returns True if the subtree is resolved for the first time."""
@@ -550,19 +550,32 @@ def resolve_typenames(
     v[JSONConvertible.TYPE_NAME_KEY] = factory_fn
     return True
 
-  def _visit(v) -> None:
-    if isinstance(v, (tuple, list)):
+  def _visit(v) -> Any:
+    # NOTE: containers are copied, as the resolved tree is consumed by
+    # `from_json` and the JSON value of the caller must stay as it is.
+    # (Only plain containers: a subclass instance, e.g. a symbolic one, is a
+    # value on its own.)
+    if type(v) is list:  # pylint: disable=unidiomatic-typecheck
+      return [_visit(x) for x in v]
+    elif type(v) is tuple:  # pylint: disable=unidiomatic-typecheck
+      return tuple(_visit(x) for x in v)
+    elif type(v) is dict:  # pylint: disable=unidiomatic-typecheck
+      v = dict(v)
+      if _resolve_typename(v):
+        # Only resolve children when _types in this tree is not resolved
+        # previously
+        for k, x in v.items():
+          v[k] = _visit(x)
+    elif isinstance(v, (tuple, list)):
       for x in v:
         _visit(x)
     elif isinstance(v, dict):
       if _resolve_typename(v):
-        # Only resolve children when _types in this tree is not resolved
-        # previously
         for x in v.values():
           _visit(x)
+    return v
 
-  _visit(json_value)
-  return json_value
+  return _visit(json_value)
 
 
 #
